@@ -2,3 +2,4 @@ import Proofs.Handler
 import Proofs.Hyperslab
 import Proofs.Slice
 import Proofs.SliceTuple
+import Proofs.Ssf
